@@ -14,7 +14,7 @@ Pipeline (one spec, three uses of TLC):
 import json, os, re, subprocess, concurrent.futures as cf
 from vlib import Infra, log, read_ndjson, write_ndjson, VERIF, REPO
 
-VALUE_INSTR = {"bltin", "add", "sub", "mul", "div", "mod", "negate", "and", "or", "ne", "lt", "le", "gt", "ge",
+VALUE_INSTR = {"bltin", "add", "sub", "mul", "div", "mod", "negate", "and", "or", "ne", "lt", "le", "gt", "ge", "union",
                "numpush", "litpush", "store"}
 PATH_INSTR = {"root", "name", "dotdot", "pathsetcurrent", "PredicatesStart", "PredicatesEnd", "PREDSTART", "PREDEND",
               "evalLocPath", "deref"}
@@ -23,7 +23,7 @@ PROFILE = {
     # property: (families quick, families thorough, faults in MC, replay with faults, random vectors quick/thorough)
     "C01": dict(quick=[1, 2, 3, 4, 5, 6, 7], thorough=[1, 2, 3, 4, 5, 6, 7, 8, 9, 10], mc_faults=0, faults=False, rand=(400, 16000), rand_kind="scalar"),
     "C02": dict(quick=[11, 12, 14, 18], thorough=[11, 12, 13, 14, 18], mc_faults=0, faults=False, rand=(300, 24000), rand_kind="path"),
-    "C03": dict(quick=[15, 17], thorough=[15, 16, 17], mc_faults=0, faults=False, rand=(300, 16000), rand_kind="ops"),
+    "C03": dict(quick=[15, 17, 19], thorough=[15, 16, 17, 19], mc_faults=0, faults=False, rand=(300, 16000), rand_kind="ops"),
     "C05": dict(quick=[4, 11, 14], thorough=[4, 6, 11, 12, 13, 14], mc_faults=4, faults=True, rand=(200, 8000), rand_kind="path"),
 }
 
@@ -194,6 +194,10 @@ def run(ctx):
             if explained and not m["kind"].startswith("variant"):
                 continue    # the trace failure of the same run is the report
             sig = dict(site="replay", kind=m["kind"], rclass=o.get("vclass", ""))
+            if o.get("blackbox"):
+                # no instruction-level trace for this run (reworded listing): the two recorded C01 findings are
+                # recognised by what the specification's program consumes
+                sig.update(blackbox=True, multiconv=bool(o.get("multiconv")), infstr=bool(o.get("infstr")))
             ctx.disagree(sig, f"replay mismatch {m['kind']} on {o['expr']!r}",
                          dict(kind="replay", expr=o["expr"], want=m["want"], got=m["got"],
                               how="xp replay on the vector of this expression (bin/check %s)" % prop))
